@@ -271,6 +271,20 @@ def rule_table(ctx):
       probs.append("step is not AddJacobian(res[i-1], base)")
       continue
     prev = v.args[2].as_atom()
+    if prev is not None and prev.kind == "sym":
+      # the previous element carried in a variable: it starts as the element stored at index 0 and ends every pass as the element just stored
+      okc = False
+      for info in w.loop_info.values():
+        for vis in info.get("visits", []):
+          for nm, hv in vis["head"].env.items():
+            if isinstance(hv, Poly) and hv.as_atom() == prev:
+              pre = vis["pre_env"].get(nm)
+              start_ok = pre is not None and not isinstance(pre, tuple) and any(as_poly(pre) == as_poly(e0.data["value"]) for e0 in first if not isinstance(e0.data["value"], tuple))
+              ends = [bp[2].env.get(nm) for bp in info["body_paths"] if bp[4] is vis]
+              okc = start_ok and bool(ends) and all(isinstance(x, Poly) and x == as_poly(e.data["value"]) for x in ends)
+      if not okc:
+        probs.append("step does not add base to the previous element")
+      continue
     if prev is None or prev.kind != "idx" or not (prev.args[1] - (i - 1)).is_zero():
       probs.append("step does not add base to the previous element")
   for info in w.loop_info.values():
@@ -280,8 +294,10 @@ def rule_table(ctx):
   rets = [e for e in w.events if e.kind == "return" and e.node is not None]
   if not all(as_poly(e.data["value"]).as_atom() is not None and as_poly(e.data["value"]).as_atom().kind == "mcall" and as_poly(e.data["value"]).as_atom().args[1] == lit("BatchJacobianToAffine") for e in rets):
     probs.append("result is not converted with BatchJacobianToAffine")
-  alloc = [e for e in w.events if e.kind == "assign" and e.data["name"] == "res" and not e.state.tags]
-  if not (alloc and as_poly(alloc[0].data["value"]) == sym.mk("listrep", P("seq", P("lit", "None")), k)):
+  want_alloc = sym.mk("listrep", P("seq", P("lit", "None")), k)
+  bases = [as_poly(e.data["base"]) for e in first if isinstance(e.data.get("base"), Poly)]
+  alloc = [e for e in w.events if e.kind == "assign" and not e.state.tags and isinstance(e.data["value"], Poly) and as_poly(e.data["value"]) == want_alloc]
+  if not alloc or not bases or any(b_ != want_alloc for b_ in bases):
     probs.append("result list does not have n entries")
   ctx.record(R, f.where, "k points 0*base .. (k-1)*base", not probs, "; ".join(sorted(set(probs))) or "res[0] = inf, res[i] = res[i-1] + base for i in range(1, n)")
 
@@ -394,6 +410,30 @@ def rule_forms(ctx):
           fam2 = True
         else:
           d2 = "repetition family range(%r, %r) does not cover 2 .. bits // 32 words" % (start, stop)
+  # the same family written as a comprehension: [2 ** j for j in range(0, bits - 31, 8)] = map(2^(start + step * b), b, range(start, stop, step))
+  if not fam1:
+    for e in w.events:
+      if e.kind != "assign" or not isinstance(e.data["value"], Poly):
+        continue
+      ma = e.data["value"].as_atom()
+      if ma is None or ma.kind != "map" or len(ma.args) != 3 or not isinstance(ma.args[0], Poly):
+        continue
+      elt, bv, src = ma.args
+      ea, sa = elt.as_atom(), as_poly(src).as_atom()
+      if ea is None or ea.kind != "pow" or as_poly(ea.args[0]).as_int() != 2 or sa is None or sa.kind != "range":
+        continue
+      a_ = list(sa.args)
+      start = Poly.const(0) if len(a_) == 1 else as_poly(a_[0])
+      stop = as_poly(a_[0]) if len(a_) == 1 else as_poly(a_[1])
+      step = as_poly(a_[2]) if len(a_) == 3 else Poly.const(1)
+      bvp = Poly.atom(bv) if not isinstance(bv, Poly) else bv
+      if as_poly(ea.args[1]) != start + bvp * step:
+        continue
+      st_i, sp_i, slack = start.as_int(), step.as_int(), (stop - BITS).as_int()
+      if st_i == 0 and sp_i is not None and sp_i > 0 and 8 % sp_i == 0 and slack is not None and slack >= -31:
+        fam1 = True
+      else:
+        d1 = "shift family range(%r, %r, %r) does not cover j = 0, 8, ..., bits - 32" % (start, stop, step)
   ctx.record(R, f.where, "multipliers 2^j, j = 0, 8, ..., bits - 32", fam1, "32-bit values shifted by whole bytes" if fam1 else (d1 or "shift family not found"))
   ctx.record(R, f.where, "multipliers sum_{i<w} 2^(32 i), 2 <= w <= bits // 32", fam2, "32-bit word repeated w times" if fam2 else (d2 or "repetition family not found"))
   calls = [e for e in w.events if e.kind == "call" and e.data["name"] == "meth:BatchDL"]
